@@ -189,6 +189,7 @@ func vmOrderRun(t *testing.T, tr *vkTrace, bh vmBehaviour) bool {
 	var mu sync.Mutex
 	var theMux *Mux
 	var gates *vkGates
+	var creator atomic.Int64 // goroutine of an overlapping NewEndpoint call
 	ctrl := vkGoid()
 	classify := func(gid int64, bound, point string, obj any) string {
 		mu.Lock()
@@ -197,7 +198,7 @@ func vmOrderRun(t *testing.T, tr *vkTrace, bh vmBehaviour) bool {
 		if !mine {
 			return ""
 		}
-		if gid == ctrl {
+		if gid == ctrl || gid == creator.Load() {
 			return "" // NewEndpoint (and a flush it performs itself) runs on the controller's goroutine
 		}
 		switch point {
@@ -220,6 +221,19 @@ func vmOrderRun(t *testing.T, tr *vkTrace, bh vmBehaviour) bool {
 	mu.Lock()
 	theMux = m
 	mu.Unlock()
+	// another endpoint that never matches (pion registers three): its match function is called by
+	// dispatch inside the critical section, which lets the driver keep the read loop there while
+	// NewEndpoint is being called ("overlap")
+	var holdReq atomic.Bool
+	holdEntered, holdRelease := make(chan struct{}, 1), make(chan struct{})
+	m.NewEndpoint(func([]byte) bool {
+		if holdReq.CompareAndSwap(true, false) {
+			holdEntered <- struct{}{}
+			<-holdRelease
+		}
+
+		return false
+	})
 
 	var ep *Endpoint
 	sent := 0
@@ -255,6 +269,39 @@ func vmOrderRun(t *testing.T, tr *vkTrace, bh vmBehaviour) bool {
 		return true
 	}
 
+	// overlapCreate realises "rMatch, then dCreate" with the two calls overlapping in time: NewEndpoint
+	// is called while dispatch is looking for an endpoint, and has to wait for the mux lock
+	overlapCreate := func() bool {
+		r0 := conn.reads.Load()
+		holdReq.Store(true)
+		if !gates.Release("R") {
+			holdReq.Store(false)
+			return false
+		}
+		select {
+		case <-holdEntered:
+		case <-time.After(gates.deadline):
+			holdReq.Store(false)
+			return false
+		}
+		done := make(chan struct{})
+		go func() {
+			creator.Store(vkGoid())
+			ep = m.NewEndpoint(MatchDTLS)
+			close(done)
+		}()
+		time.Sleep(300 * time.Microsecond) // NewEndpoint is now waiting for the lock (or about to)
+		holdRelease <- struct{}{}
+		select {
+		case <-done:
+		case <-time.After(2 * time.Second):
+			return false
+		}
+		tr.Emit(vkM{"ev": "created", "t": bh.ID, "d": 0, "when": "", "sig": "created(overlapping dispatch)"})
+		// the read loop finished this datagram when it asks for the next one
+		return waitFor(func() bool { return conn.reads.Load() > r0 })
+	}
+
 	driven := true
 	flusherAbsent := vmFlusherAbsent.Load()
 	if bh.Free {
@@ -266,14 +313,26 @@ func vmOrderRun(t *testing.T, tr *vkTrace, bh vmBehaviour) bool {
 			send()
 		}
 	} else {
-		for _, st := range bh.Steps {
+		skipCreate := false
+		for si, st := range bh.Steps {
 			if !driven {
 				break
+			}
+			if bh.ID%2 == 1 && st.Label == "rMatch" && ep == nil && si+1 < len(bh.Steps) && bh.Steps[si+1].Label == "dCreate" {
+				if !overlapCreate() {
+					driven = false
+				}
+				skipCreate = true
+				continue
 			}
 			switch st.Label {
 			case "dBefore", "dAfter":
 				send()
 			case "dCreate":
+				if skipCreate {
+					skipCreate = false
+					continue
+				}
 				create()
 			case "rRead":
 				if gates.Await("R") != "mux.dispatch.enter" {
